@@ -22,6 +22,24 @@ KINDS = [
 ]
 
 
+def _failure_targets(b, c):
+    """(switch block, [failure-side targets]) of the switch on the discriminant of this call's Result, or None"""
+    if c.target is None:
+        return None
+    tainted = b.forward_taint({c.dest[0]}, through_calls=lambda cc, ix: cc.path.rsplit("::", 1)[-1] in ("branch", "as_ref", "map_err"))
+    for i in sorted(b.reachable(c.bb)):
+        t = b.blocks[i]["t"]
+        if t[0] != "switch" or t[1][0] == "k":
+            continue
+        ds = b.defs().get(t[1][1][0], [])
+        if len(ds) == 1 and ds[0][0] == "stmt" and ds[0][4][0] == "discr" and (ds[0][4][1][0] == c.dest[0] or ds[0][4][1][0] in tainted):
+            ty = b.local_ty(ds[0][4][1][0])
+            if ty.startswith("std::result::Result<") or ty.startswith("std::ops::ControlFlow<"):
+                one = [tgt for v, tgt in t[2] if v == "1"]
+                return i, ([one[0]] if one else [t[3]])
+    return None
+
+
 def run(ctx, F, cg):
     ctx.rule("R19a", "from the write branch of each query front end, for each mutation kind, a PersistenceManager function for that kind is reachable (necessary: an effect that reaches no persistence call cannot survive a restart)")
     ctx.rule("R19b", "each such function has a storage effect on every acknowledged path (C16 R16b)")
@@ -55,10 +73,35 @@ def run(ctx, F, cg):
             continue
         r = cs[0]
         b = Body(F.mir(r["path"]), r)
-        pcs = [c for c in b.calls() if c.path.startswith(PM + "persist_")]
+        # a persist loop moved into a helper of the front end: the helper is analysed as its own unit (its failing
+        # persist calls must not reach an Ok return), and the helper call stands for the persist calls in the handler
+        helpers_ = sorted({c.path for c in b.calls() if c.path in F.fns and not c.path.startswith(PM) and any(x.startswith(PM + "persist_") for x in F.fns[c.path]["calls"])})
+        for hp in helpers_:
+            hr = F.fns[hp]
+            hb = Body(F.mir(hp), hr)
+            oks_h = {i for i, j, pl, rv, line, exp in hb.stmts() if pl[0] == 0 and rv[0] == "agg" and rv[1].endswith("Result::Ok")}
+            for k, c in enumerate(cc for cc in hb.calls() if cc.path.startswith(PM + "persist_")):
+                n_p += 1
+                inst = "%s|%s|%s|%d" % (name, hp.rsplit("::", 1)[-1], c.path.replace(PM, ""), k)
+                fails = _failure_targets(hb, c)
+                if fails is None:
+                    if any(cc.path.endswith("from_residual") and cc.bb in hb.reachable(c.target) for cc in hb.calls() if c.target is not None):
+                        ctx.ok("R19d", inst, "result propagated with `?`")
+                    else:
+                        ctx.violation("R19d", inst + "|result-ignored", where(hr, c.line), "%s ignores the result of %s: a write that was not persisted is acknowledged" % (hp.rsplit("::", 1)[-1], c.path.replace(PM, "")))
+                    continue
+                sw_, fts = fails
+                reach = set()
+                for ft in fts:
+                    reach |= hb.reachable(ft, avoid={sw_})
+                if reach & oks_h:
+                    ctx.violation("R19d", inst + "|failure-acknowledged", where(hr, c.line), "%s: when %s fails the helper can still return Ok: the handler goes on to acknowledge a write that was not persisted" % (hp.rsplit("::", 1)[-1], c.path.replace(PM, "")))
+                else:
+                    ctx.ok("R19d", inst, "the failing side never reaches Ok")
+        pcs = [c for c in b.calls() if c.path.startswith(PM + "persist_") or c.path in helpers_]
         for k, c in enumerate(pcs):
             n_p += 1
-            inst = "%s|%s|%d" % (name, c.path.replace(PM, ""), k)
+            inst = "%s|%s|%d" % (name, c.path.replace(PM, "").rsplit("::", 1)[-1] if c.path in helpers_ else c.path.replace(PM, ""), k)
             if c.target is None:
                 continue
             # the switch on the discriminant of this call's result
@@ -109,9 +152,17 @@ def run(ctx, F, cg):
         b = Body(F.mir(r["path"]), r)
         pcs = [c for c in b.calls() if c.path.startswith(PM + "persist_")]
         if not pcs:
+            # the loop over the result rows may live in a helper of the front end
+            for hc in b.calls():
+                if hc.path in F.fns and not hc.path.startswith(PM) and any(x.startswith(PM + "persist_") for x in F.fns[hc.path]["calls"]):
+                    r = F.fns[hc.path]
+                    b = Body(F.mir(hc.path), r)
+                    pcs = [c for c in b.calls() if c.path.startswith(PM + "persist_")]
+                    break
+        if not pcs:
             continue
         loops = {c.bb for c in b.calls() if c.path.rsplit("::", 1)[-1] == "next" and c.expname == "ForLoop"}
-        errs = {cc.bb for cc in b.calls() if cc.path.endswith("from_residual")} | {i for i, j, pl, rv, line, exp in b.stmts() if rv[0] == "agg" and rv[1].endswith("RespValue::Error")}
+        errs = {cc.bb for cc in b.calls() if cc.path.endswith("from_residual")} | {i for i, j, pl, rv, line, exp in b.stmts() if rv[0] == "agg" and (rv[1].endswith("RespValue::Error") or (pl[0] == 0 and rv[1].endswith("Result::Err")))}
         found = False
         for i in sorted(b.live_blocks()):
             t = b.blocks[i]["t"]
